@@ -139,12 +139,17 @@ def response_moiety(p: dict, total: float, normalized: bool) -> tuple[dict, dict
     return ({q: {x: rv[q][x] * ss[x] / p[q] for x in ss} for q in rv}, {q: {r: rf[q][r] * v / p[q] for r in ("v1", "v2")} for q in rf})
 
 
+COMPARED = [0]
+
+
 def cmp_table(df: pd.DataFrame, exp: dict, tol: float, what: str, ctx: dict) -> list[dict]:
     out = []
     for col, rows in exp.items():
         if col not in df.columns:
-            continue
+            out.append(core.viol("coefficient table lacks an expected column", None, column=col, columns=[str(x) for x in df.columns], rows=[str(x) for x in df.index], checking=what, **ctx))
+            return out
         for r, e in rows.items():
+            COMPARED[0] += 1
             g = float(df.loc[r, col])
             if not (abs(g - e) <= tol * max(1.0, abs(e))):
                 out.append(core.viol(what, None, column=col, row=r, got=g, expected=e, **ctx))
@@ -260,8 +265,10 @@ def run_case(case: dict) -> dict:
             viols += cmp_table(ve.loc[i], var_elast(pp, st, inhib, normalized), 1e-6, "mc variable elasticity differs for a draw", {"draw": row.to_dict(), "normalized": normalized, **ctx})
             viols += cmp_table(pe.loc[i], {q: v for q, v in par_elast(pp, st, inhib, normalized).items() if q in ("kin", "k1", "k2")}, 1e-6, "mc parameter elasticity differs for a draw", {"draw": row.to_dict(), **ctx})
             rv, rf = response(pp, inhib, normalized)
-            viols += cmp_table(rc.variables.loc[i].T, {q: rv[q] for q in ("kin", "k1")}, 2e-2, "mc response coefficient differs for a draw", {"draw": row.to_dict(), "normalized": normalized, **ctx})
+            viols += cmp_table(rc.variables.loc[i], {q: rv[q] for q in ("kin", "k1")}, 2e-2, "mc response coefficient differs for a draw", {"draw": row.to_dict(), "normalized": normalized, **ctx})
         counters["mc_draws"] = 3
+    counters["coefficients_compared"] = COMPARED[0]
+    COMPARED[0] = 0
     nt = moiety or inhib or p["a"] != 1.0 or p["b"] != 1.0
     return core.result(sig=core.sha([net["spec"], case["part"]]), nontrivial=nt, violations=viols[:4], counters=counters,
                        sample={"part": case["part"], **ctx} if case.get("idx", 0) < 3 else None)
